@@ -213,7 +213,7 @@ def addBodyMovable (m : ModelS α) (parent : Nat) (frame : XT α) (j : Joint α)
   let lq0 := last.qIndex
   let lqLast :=
     if last.dof > 0 ∧ last.jt ≠ .custom then lq0 + last.dof
-    else if last.jt = .custom then lq0 + (m.customJoints.getLastD .revX).dof
+    else if last.jt = .custom then lq0 + (m.custom last.customIdx).dof
     else lq0
   let newId := m.bodies.length
   let j' : Joint α := { j with qIndex := last.qIndex + last.dof }
